@@ -1,0 +1,149 @@
+//! Verification drivers, compiled only with `--cfg metrics_verif`.
+//!
+//! Thin wrappers that let an external harness drive the crate-private payload writer and the
+//! aggregation state exactly as the forwarder does, without a socket or a background thread.
+#![allow(missing_docs, clippy::missing_panics_doc, clippy::too_many_arguments)]
+
+use std::sync::Arc;
+
+use metrics::{Key, Label};
+
+use crate::{
+    builder::AggregationMode,
+    recorder::DogStatsDRecorder,
+    state::{FlushState, State, StateConfiguration},
+    telemetry::TelemetryUpdate,
+    writer::{PayloadWriter, WriteResult},
+};
+
+fn result(r: &WriteResult) -> (u64, u64) {
+    (r.payloads_written(), r.points_dropped())
+}
+
+fn drain(writer: &mut PayloadWriter) -> Vec<Vec<u8>> {
+    let mut out = Vec::new();
+    let mut payloads = writer.payloads();
+    while let Some(payload) = payloads.next_payload() {
+        out.push(payload.to_vec());
+    }
+    out
+}
+
+/// The payload writer. Every `write_*` returns `(payloads_written, points_dropped)`.
+pub struct Writer(PayloadWriter);
+
+impl Writer {
+    pub fn new(max_payload_len: usize, with_length_prefix: bool) -> Self {
+        Writer(PayloadWriter::new(max_payload_len, with_length_prefix))
+    }
+
+    pub fn write_counter(
+        &mut self,
+        key: &Key,
+        value: u64,
+        timestamp: Option<u64>,
+        prefix: Option<&str>,
+        global_labels: &[Label],
+    ) -> (u64, u64) {
+        result(&self.0.write_counter(key, value, timestamp, prefix, global_labels))
+    }
+
+    pub fn write_gauge(
+        &mut self,
+        key: &Key,
+        value: f64,
+        timestamp: Option<u64>,
+        prefix: Option<&str>,
+        global_labels: &[Label],
+    ) -> (u64, u64) {
+        result(&self.0.write_gauge(key, value, timestamp, prefix, global_labels))
+    }
+
+    pub fn write_histogram(
+        &mut self,
+        key: &Key,
+        values: &[f64],
+        sample_rate: Option<f64>,
+        prefix: Option<&str>,
+        global_labels: &[Label],
+    ) -> (u64, u64) {
+        result(&self.0.write_histogram(
+            key,
+            values.iter().copied(),
+            sample_rate,
+            prefix,
+            global_labels,
+        ))
+    }
+
+    pub fn write_distribution(
+        &mut self,
+        key: &Key,
+        values: &[f64],
+        sample_rate: Option<f64>,
+        prefix: Option<&str>,
+        global_labels: &[Label],
+    ) -> (u64, u64) {
+        result(&self.0.write_distribution(
+            key,
+            values.iter().copied(),
+            sample_rate,
+            prefix,
+            global_labels,
+        ))
+    }
+
+    /// One flush cycle: takes every committed payload, as the forwarder does.
+    pub fn drain(&mut self) -> Vec<Vec<u8>> {
+        drain(&mut self.0)
+    }
+}
+
+/// Aggregation state plus the flush-side objects the forwarder owns.
+pub struct Driver {
+    state: Arc<State>,
+    flush_state: FlushState,
+    writer: PayloadWriter,
+    telemetry: TelemetryUpdate,
+}
+
+impl Driver {
+    pub fn new(
+        agg_mode: AggregationMode,
+        histogram_sampling: bool,
+        histogram_reservoir_size: usize,
+        histograms_as_distributions: bool,
+        global_labels: Vec<Label>,
+        global_prefix: Option<String>,
+        max_payload_len: usize,
+        with_length_prefix: bool,
+    ) -> Self {
+        let state = Arc::new(State::new(StateConfiguration {
+            agg_mode,
+            telemetry: false,
+            histogram_sampling,
+            histogram_reservoir_size,
+            histograms_as_distributions,
+            global_labels,
+            global_prefix,
+        }));
+        Driver {
+            state,
+            flush_state: FlushState::default(),
+            writer: PayloadWriter::new(max_payload_len, with_length_prefix),
+            telemetry: TelemetryUpdate::default(),
+        }
+    }
+
+    /// A recorder feeding this state.
+    pub fn recorder(&self) -> DogStatsDRecorder {
+        DogStatsDRecorder::new(Arc::clone(&self.state))
+    }
+
+    /// One forwarder iteration without the socket: flush the state, take the payloads.
+    pub fn flush(&mut self) -> Vec<Vec<u8>> {
+        self.telemetry.clear();
+        self.state.flush(&mut self.flush_state, &mut self.writer, &mut self.telemetry);
+        drain(&mut self.writer)
+    }
+}
